@@ -207,6 +207,21 @@ def _resave(m, dev, ci, mi, k, entries, cob, enabled):
     """'every prior state of the device': the device loses the configuration behind the node's back (power cycle to
     an enabled factory mapping) and the same, unedited map object is saved again - the whole procedure runs again
     and the device ends up configured"""
+    if k >= 2:
+        # before that, a save() that the device turns down (it refuses writes to the mapping object in its present
+        # state, e.g. OPERATIONAL): whether that call raises is not the point here; the later save() has to run the
+        # whole procedure again (k >= 2: the device's own count never exceeds the map's, so the library's work-around
+        # for fixed-length mapping arrays has nothing to pad)
+        dev.com[1] = 0x333 | (1 << 31)
+        dev.map[0] = 2
+        dev.busy = True
+        try:
+            m.save()
+        except Exception as e:          # noqa: BLE001
+            sx.observe("busy_exc", C.exc_name(e))
+        dev.busy = False
+        del dev.refused[:]
+        sx.reach("resave-after-refusal")
     dev.com[1] = 0x333
     dev.map[0] = 2
     dev.map[1] = (POOL[0][0] << 16) | 16
@@ -427,7 +442,7 @@ META = dict(
                     "COB-ID bit 29"],
     assumptions=["strict device rules from CiA 301 7.5.2.35/36 (mapping procedure)"],
     stubs=["struct", "SdoClient.upload/download replaced on the instance", "Network.send_message no-op", "logging"],
-    required_reach=["save-enabled", "save-disabled", "read-back", "event-driven", "from-od", "predefined", "load-configuration", "resave"],
+    required_reach=["resave-after-refusal", "save-enabled", "save-disabled", "read-back", "event-driven", "from-od", "predefined", "load-configuration", "resave"],
     limits=dict(quick=dict(max_decisions=20000), thorough=dict(max_decisions=50000)),
     validate_every=dict(quick=3, thorough=5),
     max_validate=dict(quick=30, thorough=30),
